@@ -236,22 +236,28 @@ Proof.
     specialize (IH l' r eq_refl). cbn [length]. lia.
 Qed.
 
-Theorem read_lines_fuel : forall A (parse : list N -> option A) f1 f2 bs,
+(* for either line reader: Strings (crai, UTF-8 checked) or bytes (fai, since 24986d3) *)
+Theorem read_lines_gen_fuel : forall A (check : list N -> bool) (parse : list N -> option A) f1 f2 bs,
   (length bs < f1)%nat -> (length bs < f2)%nat ->
-  read_lines f1 parse bs = read_lines f2 parse bs.
+  read_lines_gen check f1 parse bs = read_lines_gen check f2 parse bs.
 Proof.
-  intros A parse. induction f1 as [|f1 IH]; intros f2 bs H1 H2; [lia|].
-  destruct f2 as [|f2]; [lia|]. cbn [read_lines]. destruct bs as [|b t]; [reflexivity|].
+  intros A check parse. induction f1 as [|f1 IH]; intros f2 bs H1 H2; [lia|].
+  destruct f2 as [|f2]; [lia|]. cbn [read_lines_gen]. destruct bs as [|b t]; [reflexivity|].
   destruct (break_at LF (b :: t)) as [raw rest] eqn:E.
-  destruct (utf8_valid raw); [|reflexivity].
+  destruct (check raw); [|reflexivity].
   destruct rest as [rest'|]; [|reflexivity].
   apply break_at_shorter in E.
   destruct (parse (strip_cr raw)) as [r|]; [|reflexivity].
   rewrite (IH f2 rest'); [reflexivity|lia|lia].
 Qed.
 
+Theorem read_lines_fuel : forall A (parse : list N -> option A) f1 f2 bs,
+  (length bs < f1)%nat -> (length bs < f2)%nat ->
+  read_lines f1 parse bs = read_lines f2 parse bs.
+Proof. intros A parse. apply read_lines_gen_fuel. Qed.
+
 (* read_fai / read_crai: any larger fuel gives the same index or the same failure *)
-Theorem read_fai_fuel : forall f bs, (length bs < f)%nat -> read_lines f parse_fai_rec bs = read_fai bs.
-Proof. intros f bs H. unfold read_fai. apply read_lines_fuel; lia. Qed.
+Theorem read_fai_fuel : forall f bs, (length bs < f)%nat -> read_lines_bytes f parse_fai_rec bs = read_fai bs.
+Proof. intros f bs H. unfold read_fai, read_lines_bytes. apply read_lines_gen_fuel; lia. Qed.
 Theorem read_crai_fuel : forall f bs, (length bs < f)%nat -> read_lines f parse_crai_rec bs = read_crai bs.
 Proof. intros f bs H. unfold read_crai. apply read_lines_fuel; lia. Qed.
